@@ -128,7 +128,7 @@ func loadVerdictPool(rec *verdictRec) (*verdictEnv, error) {
 		t := rec.Main[i].text(0, rnd)
 		r, err := rules.NewNetworkRule(t, 1)
 		if err != nil {
-			return nil, fmt.Errorf("pool rule %q rejected: %v", t, err)
+			return nil, rejectedErr("pool rule %q rejected: %v", t, err)
 		}
 		if err = checkRendered(&rec.Main[i], r); err != nil {
 			return nil, fmt.Errorf("renderer self-check %q: %v", t, err)
@@ -148,7 +148,7 @@ func loadVerdictPool(rec *verdictRec) (*verdictEnv, error) {
 		t := rec.Src[i].text(0, rnd)
 		r, err := rules.NewNetworkRule(t, 1)
 		if err != nil {
-			return nil, fmt.Errorf("pool rule %q rejected: %v", t, err)
+			return nil, rejectedErr("pool rule %q rejected: %v", t, err)
 		}
 		if !r.Match(srcReq) || r.Match(e.req) {
 			return nil, fmt.Errorf("source pool rule %q does not match exactly the referrer request", t)
@@ -206,12 +206,16 @@ func safeCall(f func()) (panicV string) {
 }
 
 func buildStorage(lists [][]string) (*filterlist.RuleStorage, error) {
-	var ls []filterlist.RuleList
-	ids := []int{7, -5, 0, 2147483647}
-	for i, l := range lists {
-		ls = append(ls, &filterlist.StringRuleList{ID: ids[i%len(ids)], RulesText: strings.Join(l, "\n") + "\n"})
+	var texts []string
+	for _, l := range lists {
+		texts = append(texts, strings.Join(l, "\n"))
 	}
-	return filterlist.NewRuleStorage(ls)
+	// the list ids rotate too: 0 is an id like any other
+	layoutMu.Lock()
+	k := layoutCounter
+	layoutMu.Unlock()
+	ids := [][]int{{7, -5, 0, 2147483647}, {0, 3, -1, 9}, {-2147483648, 0, 5, 1}}[k%3]
+	return layoutStorage(texts, ids)
 }
 
 func splitLists(texts []string, k int, rnd *rand.Rand) [][]string {
